@@ -20,7 +20,7 @@ CInit(trig) == [ running |-> FALSE,    \* between StartCall and StopCall
                  \* ---- trigger enabled while the camera runs (re-gating) ----
                  inCall  |-> FALSE,    \* a frame call is in progress
                  callNew |-> FALSE,    \* ... and it was made after the last event that can leave a trigger latched
-                 fresh   |-> 2,        \* data frames whose calls were made after that event (2 = the latch has been consumed for sure)
+                 fresh   |-> 3,        \* data frames whose calls were made after that event (3 = the latch has been consumed for sure)
                  re      |-> [on |-> FALSE, allow |-> 0, got |-> 0, trigs |-> 0] ]
 Init == l = 1 /\ c = CInit(FALSE) /\ bad = <<>> /\ nbad = 0 /\ done = FALSE
 Ev == Tr[l]
@@ -42,9 +42,11 @@ FrameRules(e) ==
        \o If(c.gated /\ c.frames + 1 > c.trigs, "FrameWithoutTrigger")
        \o If(c.gated /\ e.hw >= 0 /\ e.hw + 1 > c.trigs, "FrameIdBeyondTriggers")
        \* the trigger was enabled while the camera ran: from the moment `set` took effect every new exposure needs a trigger.
-       \* What may still arrive without one: the exposure in flight, one frame published to a call that was pending, and one
-       \* exposure on a trigger latched earlier (fired while free-running, or by a disabling `set`) unless two whole frames
-       \* were called for and delivered in between (the streamer consumes the latch when it begins an exposure).
+       \* What may still arrive without one: the frame published earlier and not yet fetched, the exposure in flight, and one
+       \* exposure on a trigger latched earlier (fired while free-running, or by a disabling `set`) unless three frames were
+       \* called for and delivered in between (the first may have been published, the second begun, before the latch was
+       \* set; the third was begun after it, and the streamer consumes the latch when it begins an exposure).
+       \* SimCamStream.tla carries the same accounting as ghost state: TLC finds no reachable refusal for the code as it is.
        \o If(c.re.on /\ c.re.got + 1 > c.re.allow + c.re.trigs, "FrameWithoutTriggerAfterEnable")
        \* the count restarts with each start: gen bounds (generously) the frames this run's streamer thread can have generated
        \o If("gen" \in DOMAIN e /\ e.hw > e.gen, "FrameIdBeyondGenerated")
@@ -58,7 +60,7 @@ Next1 ==
   /\ LET e == Ev  k == e.e IN
      CASE k = "Reset" -> c' = CInit(e.trig) /\ NoFlag
        [] k = "StartCall" -> c' = [c EXCEPT !.running = TRUE, !.gated = c.trig, !.trigs = 0, !.frames = 0, !.lastHw = -1,
-                                            !.fresh = 2, !.callNew = FALSE, !.re = ReOff] /\ NoFlag
+                                            !.fresh = 3, !.callNew = FALSE, !.re = ReOff] /\ NoFlag
        [] k = "StopCall" -> c' = [c EXCEPT !.running = FALSE, !.re = ReOff] /\ NoFlag
        [] k = "Trig" -> c' = [c EXCEPT !.trigs = c.trigs + 1, !.fresh = 0, !.callNew = FALSE,
                                        !.re = IF c.re.on THEN [c.re EXCEPT !.trigs = c.re.trigs + 1] ELSE c.re] /\ NoFlag
@@ -69,13 +71,13 @@ Next1 ==
        [] k = "SetTrig" -> c' = [c EXCEPT !.trig = e.b, !.gated = c.gated /\ e.b,
                                           !.re = IF e.b /\ ~c.trig /\ c.running /\ e.rc = 0
                                                  THEN [on |-> TRUE, got |-> 0, trigs |-> 0,
-                                                       allow |-> 1 + (IF c.inCall THEN 1 ELSE 0) + (IF c.fresh >= 2 THEN 0 ELSE 1)]
+                                                       allow |-> 2 + (IF c.fresh >= 3 THEN 0 ELSE 1)]
                                                  ELSE IF e.b THEN c.re ELSE ReOff] /\ NoFlag
        [] k = "GetFrameCall" -> c' = [c EXCEPT !.inCall = TRUE, !.callNew = TRUE] /\ NoFlag
        [] k = "GetFrameRet" -> /\ Flag(FrameRules(e))
                                /\ c' = (IF e.rc = 0 /\ e.nbytes > 0
                                         THEN [c EXCEPT !.frames = c.frames + 1, !.lastHw = IF e.hw > c.lastHw THEN e.hw ELSE c.lastHw,
-                                                       !.inCall = FALSE, !.fresh = IF c.callNew /\ c.fresh < 2 THEN c.fresh + 1 ELSE c.fresh,
+                                                       !.inCall = FALSE, !.fresh = IF c.callNew /\ c.fresh < 3 THEN c.fresh + 1 ELSE c.fresh,
                                                        !.re = IF c.re.on THEN [c.re EXCEPT !.got = c.re.got + 1] ELSE c.re]
                                         ELSE [c EXCEPT !.inCall = FALSE])
        [] k = "Hang" -> Flag(IF e.ctl = "stop" THEN <<"StopDidNotReturn">>
